@@ -60,7 +60,46 @@ fn shim_path() -> PathBuf {
     PathBuf::from(v).join("shim").join("faultfs.so")
 }
 
+/// Rename faults: renames are raw syscalls the shim cannot see, so they are reached through
+/// strace's syscall tampering: the `at`-th rename of a tracee fails with EIO / ENOENT, or the
+/// process is killed when it enters it.
+fn run_child_strace(cfg: &Config, dir: &Path, at: i64, mode: &str, log: Option<&Path>) -> (i32, String) {
+    let exe = std::env::current_exe().unwrap();
+    let mut cmd = Command::new("strace");
+    cmd.args(["-f", "-qq", "-e", "trace=rename,renameat,renameat2"]);
+    match log {
+        Some(l) => {
+            cmd.arg("-o").arg(l);
+        }
+        None => {
+            cmd.args(["-o", "/dev/null"]);
+        }
+    }
+    if at > 0 {
+        let what = match mode {
+            "rename-eio" => "error=EIO",
+            "rename-enoent" => "error=ENOENT",
+            _ => "signal=KILL",
+        };
+        cmd.arg("-e").arg(format!("inject=rename,renameat,renameat2:{what}:when={at}"));
+    }
+    cmd.arg(exe)
+        .arg("child")
+        .arg("--dir").arg(dir)
+        .arg("--shape").arg(cfg.shape)
+        .arg("--comp").arg(cfg.comp.name())
+        .arg("--packaging").arg(cfg.packaging)
+        .env("RAYON_NUM_THREADS", "2");
+    let out = cmd.output().expect("spawn strace");
+    use std::os::unix::process::ExitStatusExt;
+    let code = out.status.code().unwrap_or_else(|| 1000 + out.status.signal().unwrap_or(0));
+    (code, String::from_utf8_lossy(&out.stderr).chars().take(300).collect())
+}
+
 fn run_child(cfg: &Config, dir: &Path, at: i64, mode: &str, log: Option<&Path>) -> (i32, String) {
+    if mode.starts_with("rename-") {
+        return run_child_strace(cfg, dir, at, mode, log);
+    }
     let exe = std::env::current_exe().unwrap();
     let mut cmd = Command::new(exe);
     cmd.arg("child")
@@ -168,7 +207,7 @@ fn inspect(cfg: &Config, dir: &Path, pre: &[(String, Vec<u8>)], code: i32, mode:
             };
             if dump["open"] != json!("ok") {
                 return bad(
-                    &format!("destination holds an incomplete container ({} mode)", if mode == "kill" { "process death" } else { "I/O error" }),
+                    &format!("destination holds an incomplete container ({} mode)", if mode.contains("kill") { "process death" } else { "I/O error" }),
                     format!("size {} does not open: {}", b.len(), dump["open"]),
                 );
             }
@@ -194,7 +233,7 @@ fn main() {
     let mut rep = Report::new(
         "crashmc",
         "C09",
-        "for every configuration (packaging {OneFile,TwoFiles,NoConcat} x destination {absent, holding an older complete container} x compression {none,zstd}): a fault-free recording run gives the write history (N units: bytes written + metadata operations on the destination directory, through an LD_PRELOAD shim); then a fault at unit n for n in the quick grid (every metadata unit, every 16th byte, 6 bytes around every write-call boundary) or every n in [0,N] (thorough) x {process death, EIO, ENOSPC}; after each run the destination is absent / byte-identical to the previous file / a complete new container that opens, dumps to the model with no pack missing and verifies; non-trivial = a fault that fired (n < N)",
+        "for every configuration (packaging {OneFile,TwoFiles,NoConcat} x destination {absent, holding an older complete container} x compression {none,zstd}): a fault-free recording run gives the write history (N units: bytes written + metadata operations on the destination directory, through an LD_PRELOAD shim); then a fault at unit n for n in the quick grid (every metadata unit, every 16th byte, 6 bytes around every write-call boundary) or every n in [0,N] (thorough) x {process death, EIO, ENOSPC}; plus process death right after every metadata operation the shim sees, and every rename (raw syscalls, reached through strace's syscall tampering) failing with EIO / ENOENT or killing the process; after each run the destination is absent / byte-identical to the previous file / a complete new container that opens, dumps to the model with no pack missing and verifies; non-trivial = a fault that fired (n < N)",
     );
     if !shim_path().exists() {
         rep.machinery_errors.push(format!("{} not built", shim_path().display()));
@@ -345,14 +384,76 @@ fn main() {
         if let Some(r) = &replay {
             points = vec![r["n"].as_i64().unwrap()];
         }
+        const MODES: [&str; 7] = ["kill", "eio", "enospc", "killafter", "rename-eio", "rename-enoent", "rename-kill"];
         let modes: Vec<&str> = match &replay {
-            Some(r) => vec![if r["mode"] == "eio" { "eio" } else if r["mode"] == "enospc" { "enospc" } else { "kill" }],
+            Some(r) => vec![MODES.iter().copied().find(|m| r["mode"] == json!(m)).unwrap_or("kill")],
             None => vec!["kill", "eio", "enospc"],
         };
         let mut jobs: Vec<(i64, &str)> = vec![];
         for &m in &modes {
-            for &p in &points {
-                jobs.push((p, m));
+            if m == "kill" || m == "eio" || m == "enospc" {
+                for &p in &points {
+                    jobs.push((p, m));
+                }
+            }
+        }
+        // the process dies right after each visible metadata operation (before whatever follows
+        // it, visible to the shim or not)
+        let mut meta_points = vec![];
+        {
+            let mut pos = 0i64;
+            for (kind, u, _) in &rec.calls {
+                if kind != "write" && kind != "pwrite" {
+                    meta_points.push(pos);
+                }
+                pos += u;
+            }
+        }
+        // renames (raw syscalls): count them in a fault-free traced run, then fault each one
+        let mut n_renames = 0i64;
+        if replay.is_none() || replay.as_ref().map(|r| r["mode"].as_str().unwrap_or("").starts_with("rename-")).unwrap_or(false) {
+            let d = base.path().join(format!("ren{ci}")).join("dest");
+            restore(&d, &pre);
+            let log = base.path().join(format!("ren{ci}.log"));
+            let (code, err) = run_child_strace(cfg, &d, 0, "rename-count", Some(&log));
+            if code != 0 {
+                rep.machinery_errors.push(format!("traced fault-free creation failed ({code}): {err}"));
+            } else {
+                let text = std::fs::read_to_string(&log).unwrap_or_default();
+                let mut per_pid: std::collections::BTreeMap<String, i64> = Default::default();
+                for line in text.lines() {
+                    if line.contains("rename") && line.contains(" = 0") {
+                        let pid = line.trim_start().split_whitespace().next().unwrap_or("").to_string();
+                        *per_pid.entry(pid).or_insert(0) += 1;
+                    }
+                }
+                if per_pid.len() > 1 {
+                    rep.note("renames are issued by more than one thread: the k-th rename of every thread is faulted");
+                }
+                n_renames = per_pid.values().copied().max().unwrap_or(0);
+                if n_renames == 0 {
+                    rep.machinery_errors.push("no rename seen by strace in a fault-free creation: the rename fault tier would be vacuous".into());
+                }
+            }
+            let _ = std::fs::remove_dir_all(d.parent().unwrap());
+        }
+        rep.extra.insert(format!("renames[{}]", cfg_json), json!(n_renames));
+        match &replay {
+            None => {
+                for &p in &meta_points {
+                    jobs.push((p, "killafter"));
+                }
+                for k in 1..=n_renames {
+                    for m in ["rename-eio", "rename-enoent", "rename-kill"] {
+                        jobs.push((k, m));
+                    }
+                }
+            }
+            Some(r) => {
+                let m = modes[0];
+                if m == "killafter" || m.starts_with("rename-") {
+                    jobs = vec![(r["n"].as_i64().unwrap(), m)];
+                }
             }
         }
         let results: Vec<(i64, &str, i32, Verdict)> = jobs
@@ -368,7 +469,8 @@ fn main() {
             .collect();
         for (n, mode, code, v) in results {
             let case = json!({"engine":"crashmc","config":cfg_json,"n":n,"mode":mode,"of":n_units});
-            let fired = n < n_units;
+            let is_rename = mode.starts_with("rename-");
+            let fired = if is_rename { true } else { n < n_units };
             let exit = match code {
                 0 => "creator ok",
                 3 => "creator err",
@@ -378,7 +480,7 @@ fn main() {
             };
             let case_id = case.to_string();
             rep.case(if fired { Some(&case_id) } else { None }, &format!("{mode}: {} [{exit}]", v.outcome));
-            if mode == "kill" && fired && code != 137 {
+            if (mode == "kill" || mode == "killafter") && fired && code != 137 {
                 rep.machinery_errors.push(format!("fault at unit {n}/{n_units} did not fire in kill mode (exit {code}): history differs from the recording"));
             }
             if code == 101 {
